@@ -19,6 +19,7 @@ pub fn warmup() {
 pub fn run_job(job: &Job) -> RunResult {
     match job.engine.as_str() {
         "io-sim" => crate::iosim::run(job),
+        "lsp-sim" => crate::lsp::run(job),
         other => {
             let mut r = RunResult::new(job);
             r.harness(format!("unknown engine {other}"));
